@@ -49,7 +49,7 @@ package apply
 
 // mergeArray: a list that does not look like a list map is replaced by the desired list; list maps go to mergeListMap.
 //@ func detectListMapKey(lists) (key)
-//@   trusted list-map detection and merge are outside the generator's reach (deep induction over lists of objects): exercised by the repo's tests only
+//@   trusted list-map detection and merge are outside the generator's reach (deep induction over lists of objects; an attempt to prove "a key is reported only if every item of every list is an object" produced invariant obligations the solvers do not discharge within the quick budget): exercised by the repo's tests only
 //@   pure
 
 //@ func mergeListMap(fieldPath, mergeKey, destination, lastApplied, desired) (res, err)
